@@ -135,6 +135,11 @@ def entrySafe (p : Pattern) (e : Nat × Int × Option Bool) : Bool :=
 /-- every entry after the first is safe -/
 def abortOnlyFirst (r : StdRule) : Bool := r.atomFix.tail.all (entrySafe r.toPattern)
 
+/-- every `M` (any metal) atom of the pattern may be shared by several matches of the rule (it is listed in `any_atoms`):
+    one metal centre carries several ligands, each of which is one match -/
+def metalsShareable (r : StdRule) : Bool :=
+  r.atoms.all fun nq => nq.2.kind != .metal || r.anyAtoms.contains nq.1
+
 /-- every atom named by `atom_fix`, `bonds_fix`, `any_atoms` is a pattern atom -/
 def namesInPattern (r : StdRule) : Bool :=
   let ids := r.atoms.map (·.1)
